@@ -52,9 +52,10 @@ static void try_font(uint64_t idx, const TableSet &ts, unsigned opts, ShardCtl &
             if (shape) {
                 gr_font *font = gr_make_font(10.f, f);
                 for (const char *t : TX) for (int dir : { 0, 1, 3 }) { gr_segment *s = gr_make_seg(dir == 0 ? font : nullptr, f, 0, nullptr, gr_utf8, t, utf8_count(t), dir); ctl.counters[2] = ctl.counters[2] + 1; if (!s) continue;
-                    SegExpect e; e.nchars = utf8_count(t); std::vector<SegViolation> v; check_segment(s, e, v); touch_all_queries(s, f, font, 3);
+                    SegExpect e; e.nchars = utf8_count(t); std::vector<SegViolation> v; check_segment(s, e, v);
                     if (gr_seg_n_slots(s) > 64 * (e.nchars ? e.nchars : 1)) { JObj o; o.kv("prop", "C02").kv("kind", "slot_cap_exceeded").kv("mutant", desc); report_fail(idx, o); }
                     for (auto &x : v) { JObj o; o.kv("prop", x.prop).kv("kind", "structural_invariant").kv("what", x.what).kv("mutant", desc).kv("text", t).kv("dir", dir); report_fail(idx, o); break; }
+                    touch_all_queries(s, f, font, 3);      // after the structural verdicts are recorded: a sanitizer stop in a query must not hide them
                     gr_seg_destroy(s); }
                 gr_font_destroy(font);
             }
